@@ -247,5 +247,34 @@ def run_case(case):
         viol.append({"what": "origin_not_zero", "ref": (t0.lat, t0.lon), "xy": (cfg3.towers[0].x, cfg3.towers[0].y),
                      "history": "tower on the new origin of a re-built configuration"})
 
+    # reference origins as a configuration file may spell them: whole degrees written without a decimal point (int), the equator or
+    # the prime meridian (0 / 0.0, falsy values), numpy scalars from a station table; a YAML text path too
+    from bldfm.config_parser import parse_config_dict as _pcd
+
+    for k in range(6):
+        rla_i, rlo_i = int(rng.integers(-60, 61)), int(rng.integers(-179, 180))
+        if k == 1:
+            rla_i = 0
+        if k == 2:
+            rlo_i = 0
+        if k == 3:
+            rla_i, rlo_i = 0, 0
+        spell = [(rla_i, rlo_i, "int"), (float(rla_i), float(rlo_i), "float"), (np.float64(rla_i), np.int64(rlo_i), "numpy"),
+                 (rla_i, float(rlo_i) + 0.25, "int latitude only")][k % 4 if k < 4 else int(rng.integers(0, 4))]
+        tws = []
+        for j in range(3):
+            x, y = float(rng.uniform(-3000, 3000)), float(rng.uniform(-3000, 3000))
+            la, lo = xy_to_latlon(x, y, float(spell[0]), float(spell[1]))
+            tws.append({"name": f"I{j}", "lat": float(la), "lon": float(lo), "z_m": 2.5, "_xy": (x, y)})
+        cfgi = _pcd({"domain": {"nx": 8, "ny": 8, "xmax": 80.0, "ymax": 80.0, "nz": 4, "ref_lat": spell[0], "ref_lon": spell[1]},
+                     "towers": [{k_: v_ for k_, v_ in t_.items() if not k_.startswith("_")} for t_ in tws], "met": {"ustar": 0.3}})
+        buckets[f"origin_spelled:{spell[2]}"] = buckets.get(f"origin_spelled:{spell[2]}", 0) + 1
+        for t, spec in zip(cfgi.towers, tws):
+            counters["config_towers"] += 1
+            ex, ey = latlon_to_xy(spec["lat"], spec["lon"], float(spell[0]), float(spell[1]))
+            if not (abs(t.x - ex) <= 1e-9 and abs(t.y - ey) <= 1e-9) or math.hypot(t.x - spec["_xy"][0], t.y - spec["_xy"][1]) > 1e-5:
+                viol.append({"what": "config_tower_xy", "tower": spec, "got": (t.x, t.y), "expected": (ex, ey),
+                             "ref": (repr(spell[0]), repr(spell[1])), "note": f"reference origin spelled as {spell[2]}"})
+
     return {"evals": counters["points"], "nontrivial": bool(sigs), "sig": sorted(sigs), "buckets": buckets,
             "resid": resid, "counters": counters, "violations": viol, "sample": sample}
